@@ -83,9 +83,13 @@ async def _run(events, consumers, sub_hops=0):
                     await PI.settle(ev[1])
             else:
                 g = ev[1]
+                tmo = ev[3] if len(ev) > 3 else None
 
-                async def getter(g=g):
-                    obj = await proto.get("ecomax")
+                async def getter(g=g, tmo=tmo):
+                    try:
+                        obj = await proto.get("ecomax", timeout=tmo)
+                    except asyncio.TimeoutError:
+                        return              # (a caller that gave up before the entry existed got nothing)
                     got.append([g, obj])
                 getters[g] = asyncio.ensure_future(getter())
             await PI.settle(ev[2] if len(ev) > 2 else 12)
@@ -171,6 +175,13 @@ class C10(Prop):
                     for apart in (0, 1, 4):
                         evs = [[0, i + 1] for i in range(k)] + [[2, 100], [5, apart], [0, k + 1], [2, 101]]
                         cases.append({"kind": "slow-subscriber", "events": evs, "consumers": consumers, "sub_hops": hops})
+        # callers of get() with a time-out that expires while the class is still loading, next to callers that keep waiting
+        for consumers in (1, 3):
+            for k in (1, 2):
+                for order in (0, 1):
+                    getters = [[2, 100, 12, 2], [2, 101]] if order == 0 else [[2, 101], [2, 100, 12, 2]]
+                    evs = getters + [[0, i + 1] for i in range(k)] + [[3, 3], [2, 102, 12, 1], [3, 2], [1, 0], [0, k + 1], [2, 103]]
+                    cases.append({"kind": "getter-timeouts", "events": evs, "consumers": consumers, "gave_up": [100, 102]})
         self.exhaustive = True
         return cases
 
@@ -182,7 +193,8 @@ class C10(Prop):
 
     def model_many(self, cases):
         # (the passing of time is not an event of the model: nothing in it depends on how long the loading takes)
-        res = model.call_many("drun", [[True, [([1, 0] if e[0] == 5 else e[:2]) for e in c["events"] if e[0] not in (3, 4)]] for c in cases])
+        res = model.call_many("drun", [[True, [([1, 0] if e[0] == 5 else e[:2]) for e in c["events"]
+                                             if e[0] not in (3, 4) and not (e[0] == 2 and e[1] in c.get("gave_up", []))]] for c in cases])
         out = []
         for c, r in zip(cases, res):
             got = sorted(list(p) for p in r[3])
@@ -203,7 +215,10 @@ class C10(Prop):
             arrived = [e[1] for e in c["events"] if e[0] == 0]
             done = any(e[0] == 1 for e in c["events"])
             complete = (sorted(t for t, _ in b[2]) == sorted(arrived)) if done else True
-            out.append(bool(r) and complete)
+            # every caller of get() that did not give up before the entry existed has received it
+            waiting = {e[1] for e in c["events"] if e[0] == 2} - set(c.get("gave_up", []))
+            answered = {g for g, _ in b[3] if g < 200}
+            out.append(bool(r) and complete and (answered == waiting if done else True))
         return out
 
     def nontrivial_key(self, c, mb):
